@@ -7,6 +7,7 @@
                                              the statement just executed) and the trap ids injected right after
      {a:"sr"}                                suspend + resume happened at this boundary (C40)
      {a:"end", k, code, line, vars, out}     how the run finished
+     {a:"direct", stmts}                     a direct line executed after the run (its boundaries carry line 65535)
    One event = one TLC step.  A boundary event must equal the observation of the specification state; then
    the specification executes one statement (after applying the injected occurrences and dispatching traps in
    some order).  After the first rejected event of a run the rest of that run is skipped (the stacks cannot
@@ -44,6 +45,9 @@ EndClause(s, e) ==
     ELSE IF ~VarsMatch(s, e) THEN "variables"
     ELSE "ok"
 
+\* the end of a direct line is not a logged boundary: reaching it just returns to the prompt
+Settle(s) == IF s.run /\ s.pc[1] = 0 /\ I!AtEnd(s, s.pc) THEN I!Exec(s) ELSE s
+
 Reject(c) == /\ viol' = Append(viol, <<l, c>>) /\ dead' = TRUE /\ ss' = {}
 
 TNext ==
@@ -56,6 +60,9 @@ TNext ==
          \* C40: the session was suspended to a state file and resumed from it between two statements:
          \* a stuttering step of the abstract machine - whatever follows must continue as if nothing happened
          [] e.a = "sr" -> UNCHANGED <<ss, dead, viol>>
+         \* a line typed at the prompt after the run has stopped (C21, C38: traps and handlers armed by the program)
+         [] e.a = "direct" -> /\ ss' = {I!StartDirect(s, e.stmts) : s \in ss}
+                              /\ UNCHANGED <<dead, viol>>
          [] e.a = "b" ->
               LET good == {s \in ss : BoundaryClause(s, e) = "ok"} IN
               IF good = {}
@@ -65,11 +72,12 @@ TNext ==
               ELSE /\ ss' = UNION {I!Steps(OccurAll(Adopt(s, e), e.occ)) : s \in good}
                    /\ UNCHANGED <<dead, viol>>
          [] e.a = "end" ->
-              LET good == {s \in ss : EndClause(s, e) = "ok"} IN
-              IF good = {} THEN Reject(EndClause(CHOOSE s \in ss : TRUE, e))
+              LET sett == {Settle(s) : s \in ss}
+                  good == {s \in sett : EndClause(s, e) = "ok"} IN
+              IF good = {} THEN Reject(EndClause(CHOOSE s \in sett : TRUE, e))
               ELSE IF \A s \in good : s.kf
                    THEN Reject("known_clear_keeps_gosub_stack")      \* explained only by the listed deviation
-              ELSE ss' = {} /\ dead' = TRUE /\ viol' = viol
+              ELSE ss' = {Adopt(s, e) : s \in good} /\ UNCHANGED <<dead, viol>>       \* kept: a direct line may follow
 
 TInit == ss = {} /\ dead = TRUE /\ l = 1 /\ viol = <<>>
 TSpec == TInit /\ [][TNext]_tvars
